@@ -7,7 +7,8 @@ from cxx2c import load_docs, Index, Unsupported
 from cxx2c_fn import Lower
 
 def get_index(ast_path):
-    pk = ast_path + '.idx.pickle'
+    import hashlib
+    pk = ast_path + '.idx-%s.pickle' % hashlib.sha256(open(os.path.join(os.path.dirname(os.path.abspath(__file__)), 'cxx2c.py'), 'rb').read()).hexdigest()[:10]
     if os.path.exists(pk) and os.path.getmtime(pk) >= os.path.getmtime(ast_path):
         try:
             with open(pk, 'rb') as f: return pickle.load(f)
